@@ -60,6 +60,7 @@
  "tier": "wip",
  "tier_after_hooks": "quick",
  "harness": "h_rewrite_inodes_pass",
+ "backend": "cadical",
  "defines": ["EXT2_CUSTOM_MEMORY_ROUTINES"],
  "replace": ["rewrite_one_inode"],
  "loop_contracts": true,
@@ -194,7 +195,6 @@ static struct {
 	unsigned int w_flags; unsigned char w_j;	/* image written last: i_flags and the ghost byte */
 	unsigned int ea_hash_seq, inline_seq, ext_seq, dir_seq, rd_seq, blk_seq, wr_seq;
 	unsigned long long rd_blk, wr_blk;
-	unsigned int exits;
 	/* rewrite_inodes */
 	unsigned int passes, pf0, pf1, allocs, frees;
 	void *zero_p, *ea_p, *inode_p;
@@ -257,7 +257,6 @@ char *gettext(const char *msgid) { return (char *)msgid; }
 void exit(int status)
 {
 	CHECK(status != 0, "giving up is reported by a non-zero exit status");
-	M.exits++;
 	REACH("exit");
 	ASSUME(0);
 }
@@ -346,7 +345,6 @@ static void one_inode(int isize)
 	rewrite_one_inode(&CTX, IN.ino, INODE);
 
 	/* normal return */
-	CHECK(M.exits == 0, "no return after a fatal error");
 	if (!IN.in_use) {
 		if (IN.zero_cmp == 0) {
 			CHECK(M.seq == 0 && INODE_BUF[IN.j] == 0, "O1 an unused all-zero slot is left alone");
@@ -453,7 +451,10 @@ errcode_t ext2fs_get_next_inode_full(ext2_inode_scan scan, ext2_ino_t *ino, stru
 	verif_g3 = verif_g4 = 0;
 	if (r)
 		return r;
-	__CPROVER_havoc_slice(inode, IN.inode_size);
+	{
+		unsigned char nd[256];	/* uninitialised: arbitrary inode content */
+		memcpy(inode, nd, IN.inode_size);
+	}
 	*ino = nondet_uint();
 	verif_g1 = *ino;
 	fl = IN.flags;
@@ -472,16 +473,22 @@ void h_rewrite_inodes_pass(void)
 {
 	LOAD_IN();
 	setup_fs();
-	ASSUME(IN.inode_size == 128 || IN.inode_size == 256);
 	memset(&CTX, 0, sizeof(CTX));
 	CTX.fs = &FS;
 	CTX.zero_inode = (struct ext2_inode *)ZERO_BUF;
 	CTX.ea_buf = (char *)EA_BUF;
-	CTX.inode_size = IN.inode_size;
+	/* literal sizes: a symbolic allocation size is expensive */
+	if (IN.inode_size == 128) {
+		IN.inode_size = 128;
+		CTX.inode_size = 128;
+		rewrite_inodes_pass(&CTX, IN.flags);
+	} else {
+		IN.inode_size = 256;
+		CTX.inode_size = 256;
+		rewrite_inodes_pass(&CTX, IN.flags);
+	}
 
-	rewrite_inodes_pass(&CTX, IN.flags);
-
-	CHECK(M.exits == 0 && IN.ret_open == 0, "a scan that cannot be opened is fatal");
+	CHECK(IN.ret_open == 0, "a scan that cannot be opened is fatal");
 	CHECK(verif_g3 == 0, "P1 the pass ends when the scan is exhausted");
 	CHECK(M.opens == 1 && M.closes == 1, "P2 scan closed");
 	CHECK(M.allocs == 1 && M.frees == 1, "P2 buffer released");
@@ -500,7 +507,6 @@ void h_rewrite_inodes(void)
 
 	rewrite_inodes(&FS, IN.flags);
 
-	CHECK(M.exits == 0, "no return after a fatal error");
 	if (IN.creator_os == EXT2_OS_HURD) {
 		CHECK(M.passes == 0 && M.allocs == 0, "N3 nothing to do for Hurd");
 		REACH("hurd");
@@ -552,7 +558,7 @@ void h_rewrite_metadata_checksums(void)
 
 	r = rewrite_metadata_checksums(&FS, IN.flags);
 
-	CHECK(M.exits == 0 && IN.ret_rb == 0, "bitmaps that cannot be loaded are fatal");
+	CHECK(IN.ret_rb == 0, "bitmaps that cannot be loaded are fatal");
 	CHECK(M.seed_seq == 1 && verif_g6 == 0, "M1 the seed is derived before the first checksum is computed");
 	CHECK(!(IN.k < IN.groups) || verif_g0 == 1, "M2 every group descriptor gets a new checksum");
 	CHECK(M.rb_seq != 0 && M.ri_seq > M.rb_seq && M.ri_flags == IN.flags, "M3 bitmaps loaded, then the inodes rewritten with the caller's selection");
